@@ -69,6 +69,7 @@ def c06(tier, seed):
     if tier == "quick":
         return [
             Run("iterq", "debug", ["--flavours", "Tok,u32,ZTok,String"], shards=4),
+            Run("iterq", "release", ["--flavours", "Tok,u32,ZTok,String"], shards=4),
             Run("iterq", "miri", ["--flavours", "HeapTok,ZTok", "--maxn", "3", "--budget", "12"], shards=16, label="iterq/miri(N<=3)"),
         ]
     return [
@@ -86,8 +87,10 @@ ALLNATIVE = "Tok,Tok24,ZTok,u8,u32,[u64;3],(),String"
 def c09(tier, seed):
     if tier == "quick":
         return [
-            Run("seqops", "debug", ["--flavours", ALLNATIVE], shards=2),
+            Run("seqops", "debug", ["--flavours", ALLNATIVE, "big=1"], shards=4),
+            Run("seqops", "release", ["--flavours", ALLNATIVE, "big=1"], shards=4),
             Run("seqops", "miri", ["--flavours", "HeapTok,ZTok,u8,[u64;3]", "--maxn", "4"], shards=16, label="seqops/miri(N<=4)"),
+            Run("seqops", "miri", ["--flavours", "u8", "--maxn", "65", "--part", "big"], shards=8, label="seqops/miri(big<=65)"),
         ]
     return [
         Run("seqops", "debug", ["--flavours", ALLNATIVE], shards=8),
@@ -115,12 +118,12 @@ def c03(tier, seed):
 def c07(tier, seed):
     if tier == "quick":
         return [
-            Run("collect", "debug", ["--flavours", "Tok,u32,ZTok"], shards=4),
+            Run("collect", "debug", ["--flavours", "Tok,u32,ZTok,Fat"], shards=8),
             Run("collect", "miri", ["--flavours", "HeapTok", "--maxn", "2"], shards=16, label="collect/miri(N<=2)"),
         ]
     return [
-        Run("collect", "debug", ["--flavours", "Tok,u32,ZTok"], shards=8),
-        Run("collect", "release", ["--flavours", "Tok,u32,ZTok"], shards=8),
+        Run("collect", "debug", ["--flavours", "Tok,u32,ZTok,Fat"], shards=16),
+        Run("collect", "release", ["--flavours", "Tok,u32,ZTok,Fat"], shards=16),
         Run("collect", "miri", ["--flavours", "HeapTok,ZTok", "--maxn", "4"], shards=32, label="collect/miri(N<=4)"),
         Run("collect", "memcheck", ["--flavours", "HeapTok,u32", "--maxn", "4"], shards=16),
         Run("collect", "asan", ["--flavours", "HeapTok"], shards=8),
@@ -166,6 +169,7 @@ def c02(tier, seed):
     if tier == "quick":
         return [
             Run("views", "debug", ["--flavours", VIEWS], shards=4),
+            Run("views", "release", ["--flavours", VIEWS], shards=4),
             Run("views", "miri", ["--flavours", "HeapTok,ZTok,u8,u32", "--maxn", "17"], shards=16, label="views/miri(N<=17)"),
         ]
     return [
@@ -198,6 +202,7 @@ def c10(tier, seed):
     if tier == "quick":
         runs = [
             Run("chunks", "debug", ["--flavours", CHUNKF], shards=4),
+            Run("chunks", "release", ["--flavours", CHUNKF], shards=4),
             Run("chunks", "miri", ["--flavours", "u8,u32,(u8,u16),()", "--maxn", "8"], shards=16, label="chunks/miri(N<=8)"),
         ]
     else:
@@ -244,8 +249,8 @@ def c08(tier, seed):
 
 def c13(tier, seed):
     if tier == "quick":
-        return [Run("cmpfmt", "debug", [], shards=8)]
-    return [Run("cmpfmt", "debug", [], shards=16), Run("cmpfmt", "release", [], shards=16),
+        return [Run("cmpfmt", "debug", ["--maxn", "4096"], shards=8)]
+    return [Run("cmpfmt", "debug", ["--maxn", "4096"], shards=16), Run("cmpfmt", "release", ["--maxn", "4096"], shards=16),
             Run("cmpfmt", "miri", ["--maxn", "2", "--budget", "3"], shards=16, label="cmpfmt/miri(N<=2)")]
 
 
@@ -254,7 +259,8 @@ def c14(tier, seed):
         return [
             Run("hex", "debug", ["--maxn", "4096"], shards=4, label="hex/debug(default)"),
             Run("hex", "fhex-debug", ["--maxn", "4096"], shards=4, label="hex/debug(faster-hex)"),
-            Run("hex", "miri", ["--maxn", "17"], shards=16, label="hex/miri(fallback,N<=17)"),
+            Run("hex", "miri", ["--maxn", "17"], shards=12, label="hex/miri(fallback,N<=17)"),
+            Run("hex", "miri", ["--maxn", "4096", "only_big=1", "big_n=1025"], shards=16, label="hex/miri(fallback,N=1025)"),
         ]
     return [
         Run("hex", "debug", ["--maxn", "4096"], shards=8, label="hex/debug(default)"),
@@ -262,6 +268,8 @@ def c14(tier, seed):
         Run("hex", "release", ["--maxn", "4096"], shards=8, label="hex/release(default)"),
         Run("hex", "fhex-release", ["--maxn", "4096"], shards=8, label="hex/release(faster-hex)"),
         Run("hex", "miri", ["--maxn", "256"], shards=32, label="hex/miri(fallback,N<=256)"),
+        Run("hex", "miri", ["--maxn", "4096", "only_big=1"], shards=32, label="hex/miri(fallback,N>1024)"),
+        Run("hex", "asan", ["--maxn", "4096"], shards=8, label="hex/asan(default)"),
         Run("hex", "fhex-asan", ["--maxn", "4096"], shards=8, label="hex/asan(faster-hex)"),
         Run("hex", "fhex-memcheck", ["--maxn", "1024"], shards=16, label="hex/memcheck(faster-hex)"),
     ]
